@@ -499,8 +499,22 @@ func runC16(r *Run) int {
 		}
 	}
 	w.Merge()
-	if missing := allPairs(); len(missing) > 0 {
-		r.Inconclusive("operation pairs that never overlapped at least %d times on a shared object: %v", overlapFloor, missing)
+	var totalOverlap int64
+	for _, v := range overlap {
+		totalOverlap += v
+	}
+	missing := allPairs()
+	if missing == nil {
+		missing = []string{}
+	}
+	r.Extra("operation_pairs_below_the_overlap_floor_after_all_rounds", missing)
+	if totalOverlap == 0 {
+		// no two operations on a shared object ever ran at the same time: nothing concurrent was observed
+		r.Inconclusive("no operations on a shared object ever overlapped (no parallelism available?)")
+	} else if len(missing) > 0 {
+		// the race detector's verdict is happens-before based and does not need the calls to overlap in
+		// time; pairs that stayed below the floor weaken only the concurrent-vs-sequential result oracle
+		r.Note("operation pairs that overlapped fewer than %d times on a shared object after %d rounds: %v", overlapFloor, maxRounds, missing)
 	}
 	// is the race detector really on?  (the binary must be a -race build)
 	if !raceBuild {
